@@ -284,7 +284,16 @@ func TestC19_SharedDelivery(t *testing.T) {
 }
 
 func TestC19_Collectors(t *testing.T) {
-	p := kit.Prop[C17Conc]{ID: "C19", Name: "Collectors", Quick: 40, Thorough: 3000, Gen: func(t *rapid.T) C17Conc { c := genC17Conc(t); c.Ops = min(c.Ops, 120); return c }, Run: runC17Conc, Journal: true}
+	p := kit.Prop[C17Conc]{ID: "C19", Name: "Collectors", Quick: 80, Thorough: 4000, Gen: func(t *rapid.T) C17Conc {
+		c := genC17Conc(t)
+		c.Ops = min(c.Ops, 120)
+		// half of the workloads: every worker is the same client and they start together, round by round, with a slow
+		// location database, so that check-then-act bugs between two critical sections get their window
+		if c.Burst = rapid.Bool().Draw(t, "burst2"); c.Burst {
+			c.LatencyUs = 50
+		}
+		return c
+	}, Run: runC17Conc, Journal: true}
 	p.Execute(t)
 }
 
